@@ -382,6 +382,34 @@ func (s *sysWorld) apply(t tamper, q dns.Question, m *dns.Msg) *dns.Msg {
 		})
 	case "signer":
 		sigs(func(sg *dns.RRSIG) { sg.SignerName = t.arg })
+	case "sigfield":
+		// the data is altered and ONE field of every RRSIG is rewritten so that the signature can no longer be
+		// checked (unimplemented algorithm, unknown key tag, other class …) while everything else stays genuine:
+		// "cannot be judged" must never become "insecure"
+		m.Answer = mapRRs(m.Answer, func(rr dns.RR) dns.RR {
+			if rr.Header().Rrtype == dns.TypeRRSIG {
+				return rr
+			}
+			return flipRdata(rr)
+		})
+		sigs(func(sg *dns.RRSIG) {
+			switch t.arg {
+			case "alg16":
+				sg.Algorithm = 16
+			case "alg12":
+				sg.Algorithm = 12
+			case "alg1":
+				sg.Algorithm = 1
+			case "alg253":
+				sg.Algorithm = 253
+			case "tag":
+				sg.KeyTag ^= 0x5555
+			case "covered":
+				sg.TypeCovered = dns.TypeNULL
+			case "origttl":
+				sg.OrigTtl += 7
+			}
+		})
 	case "labels":
 		sigs(func(sg *dns.RRSIG) {
 			if t.arg == "+1" {
@@ -1183,6 +1211,8 @@ func genL3(r *vlib.R, emit func(string)) int {
 		{"wildcard-replay", "-", "data"}, {"wildcard-replay", "foreign", "data"}, {"wildcard-replay", "foreign", "data"}, {"wildcard-replay", "foreign-root", "data"},
 		{"wildcard-replay", "inzone", "data"}, {"wildcard-replay", "foreignsig", "data"}, {"ds-childside", "-", "all"},
 		{"rcode", "1", "data"}, {"rcode", "4", "data"}, {"rcode", "5", "data"}, {"rcode", "9", "data"}, {"rcode", "3", "all"},
+		{"sigfield", "alg16", "data"}, {"sigfield", "alg12", "all"}, {"sigfield", "alg1", "data"}, {"sigfield", "alg253", "notkey"}, {"sigfield", "tag", "data"},
+		{"sigfield", "covered", "data"}, {"sigfield", "origttl", "data"}, {"sigfield", "alg16", "notkey"},
 		{"dname-retarget", "evil", "data"}, {"dname-retarget", "evil", "data"}, {"dname-retarget", "insert", "data"}, {"ds-replay-nsec", "-", "all"},
 		{"padkey", "denyds", "all"}, {"padkey", "data", "all"}, {"padkey", "deny", "all"}, {"padkey", "data", "all"}}
 	if keys == "pairkk" {
